@@ -40,6 +40,26 @@ Theorem C15_def_name_span_exact :
 Proof. exact def_name_span_exact. Qed.
 Print Assumptions C15_def_name_span_exact.
 
+(** the same for a TAB behind the keyword (since fix faffab5), on a line showing no "def " *)
+Theorem C15_def_name_span_exact_tab :
+  forall content line lead sp c0 p rest,
+    nth_opt (lines content) (line - 1) = Some (lead ++ def_tab ++ sp ++ (c0 :: p) ++ rest) ->
+    find def_sp (lead ++ def_tab ++ sp ++ (c0 :: p) ++ rest) = None ->
+    forallb (fun c => negb (100 =? c)) lead = true ->
+    forallb (fun c => negb (c0 =? c)) sp = true ->
+    find_function_name_position content line (c0 :: p)
+    = Ok (blen lead + 4 + blen sp, blen lead + 4 + blen sp + blen (c0 :: p)).
+Proof. exact def_name_span_exact_tab. Qed.
+Print Assumptions C15_def_name_span_exact_tab.
+
+(** before that fix: [def<TAB>e():] marks the [e] of the keyword *)
+Lemma C15_def_tab_old_refuted :
+  let content := [100; 101; 102; 9; 101; 40; 41; 58] in
+  find_function_name_position_old content 1 [101] = Ok (1, 2)
+  /\ find_function_name_position content 1 [101] = Ok (4, 5)
+  /\ marks_on_line content 4 5 [101] = true.
+Proof. exact def_tab_old_refuted. Qed.
+
 (** String usages (usefixtures / parametrize-indirect): whatever span [string_usage_span]
     finds inside a literal — any prefix, quote style, comma-separated list — is the name
     as a whole token, in the literal's own columns and, shifted by the literal's column,
